@@ -24,8 +24,8 @@ CLAIM = dict(
           "declares exactly the exported (or the listed and exported) names as constants carrying their home module, nothing else "
           "changes, assignment to them is error 44; a missing module is error 60 and a missing library error 64; a run whose "
           "import relation has a cycle reachable from the main file never ends normally and the import closing a cycle is answered "
-          "with error 63; A-B-C maps to A/B/C.zn; a method called through an import runs on a frame of its home module and finds "
-          "that module's methods and types. The model is the repaired algorithm (fixes/C15-1.patch, C15-2.patch); it is tied to "
+          "with error 63; A-B-C maps to A/B/C.zn; a method called through an import — and the custom constructor of an imported type — runs on "
+          "a frame of its home module and finds that module's methods and types. The model is the repaired algorithm (fixes/C15-1.patch, C15-2.patch); it is tied to "
           "the code on every run by executing ALL digraphs on <=3 (quick) / <=4 (thorough, modulo renaming) modules plus random "
           "larger graphs as directories of generated .zn files."),
     note=TB + ("module sources are abstracted to imports / method and type definitions / marker, call, probe, assignment, "
